@@ -116,6 +116,34 @@ theorem rowsOf_mem (w : Nat) : ∀ (n : Nat) (flat : List Val), flat.length = n 
 /-- integer arrays hold integers below 2^64 (every supported integer dtype has at most 64 bits) -/
 def IntsFit (s : St) : Prop := ∀ p a, get s p = some (.array a) → ∀ x, Val.i x ∈ a.flat → x < 2 ^ 64
 
+/-- a decidable sufficient condition -/
+def intsFitB (s : St) : Bool :=
+  s.all (fun kv => match kv.2 with
+    | .array a => a.flat.all (fun v => match v with | .i x => decide (x < 2 ^ 64) | _ => true)
+    | .group _ => true)
+
+theorem intsFit_of_bool (s : St) (h : intsFitB s = true) : IntsFit s := by
+  intro p a hg x hx
+  have hm : (p, Entry.array a) ∈ s := by
+    unfold Geff.Store.get at hg
+    cases hf : s.find? (fun kv => kv.1 = p) with
+    | none => rw [hf] at hg; cases hg
+    | some kv =>
+      rw [hf] at hg
+      have hmem := List.mem_of_find?_eq_some hf
+      have hk := List.find?_some hf
+      simp only [decide_eq_true_eq] at hk
+      simp only [Option.map_some, Option.some.injEq] at hg
+      obtain ⟨k, e⟩ := kv
+      simp only at hk hg
+      subst hk; subst hg
+      exact hmem
+  unfold intsFitB at h
+  have := List.all_eq_true.1 h (p, Entry.array a) hm
+  simp only at this
+  have := List.all_eq_true.1 this (.i x) hx
+  simpa using this
+
 theorem wrapInt_u64 (x : Int) (h0 : 0 ≤ x) (h1 : x < 2 ^ 64) : wrapInt .u64 x = x := by
   unfold wrapInt
   have hmod : x % 2 ^ Dtype.u64.bits = x := Int.emod_eq_of_lt h0 (by simpa [Dtype.bits] using h1)
@@ -627,5 +655,201 @@ theorem vlenCells_encode (es : List NdArr) (hwf : ∀ e ∈ es, e.WF) (hh : Geff
         simp only [hflat, size, List.foldl_cons, List.foldl_nil, Nat.one_mul, beq_self_eq_true]
       · unfold wellShaped
         simp [size]
+
+theorem maskBits_ok (missing : Option NdArr) (n : Nat) (hb : ∀ m, missing = some m → m.dtype = .bool)
+    (hr : ∀ m, missing = some m → m.shape = [n] ∧ m.WF ∧ ∀ v ∈ m.flat, ∃ x, v = .b x) :
+    ∃ bits, maskBits missing n = some bits := by
+  unfold maskBits
+  cases missing with
+  | none => exact ⟨_, rfl⟩
+  | some m =>
+    obtain ⟨hsh, hwf, hent⟩ := hr m rfl
+    simp only []
+    rw [if_pos ⟨hb m rfl, hsh, by unfold wellShaped; rw [hwf]; simp [size, prod]⟩]
+    apply mapM_isSome
+    intro v hv
+    obtain ⟨x, rfl⟩ := hent v hv
+    exact ⟨x, rfl⟩
+
+theorem optionalArray_of_get (s : St) (q : Path) (o : Option NdArr) (h : get s q = o.map .array) :
+    optionalArray s q = some o := by
+  unfold optionalArray
+  rw [h]
+  cases o <;> rfl
+
+/-- a written property is a property group as the specification describes it -/
+theorem denoteProp_written (s : St) (q : Path) (name : String) (p : PropArr) (n : Nat) (pm : PropMeta)
+    (hat : PropAt vlenCodec s q (upcast p)) (hw : Writable name p) (hr : RowsOK n p)
+    (hdt : pm.dtype = (dtypeOfProp p).name) (hvl : pm.varlength = some (isVarlen p)) :
+    denoteProp s q n pm = some (propD (upcast p)) := by
+  obtain ⟨hg, v, d, he, hv, hm, hd⟩ := hat
+  have hV : Gen.Paths.VALUES = "values" := rfl
+  have hM : Gen.Paths.MISSING = "missing" := rfl
+  have hD : Gen.Paths.DATA = "data" := rfl
+  rw [hV] at hv; rw [hM] at hm; rw [hD] at hd
+  have h1 : groupAt s q = true := by unfold groupAt; rw [hg]
+  have h2 : arrayAt s (q ++ ["values"]) = some v := by unfold arrayAt; rw [hv]
+  have h3 := optionalArray_of_get s _ _ hm
+  have h4 := optionalArray_of_get s _ _ hd
+  have h5 : Dtype.ofName? pm.dtype = some (dtypeOfProp p) := by rw [hdt]; exact Dtype.ofName_name _
+  obtain ⟨bits, hbits⟩ := maskBits_ok (upcast p).missing n (by rw [upcast_missing]; exact hw.2.1)
+    (by rw [upcast_missing]; exact hr.1)
+  have hbo := (mask_of_spec _ _ _ hbits).2
+  unfold denoteProp
+  rw [if_neg (by rw [h1]; simp), h2, h3, h4, h5]
+  simp only [hbits, hvl, Option.getD_some]
+  cases hval : p.values with
+  | dense a =>
+    have hnv : isVarlen p = false := by unfold isVarlen; rw [hval]
+    obtain ⟨a', ha', hsh', hfl'⟩ : ∃ a', (upcast p).values = .dense a' ∧ a'.shape = a.shape ∧ a'.flat.length = a.flat.length := by
+      rw [upcast_dense p a hval]; split
+      · exact ⟨_, rfl, rfl, by simp [f16to32]⟩
+      · exact ⟨a, hval, rfl, rfl⟩
+    have hvd : v = a' ∧ d = none := by
+      unfold encodeProp at he; rw [ha'] at he
+      simp only [pure, Except.pure, Except.ok.injEq, Prod.mk.injEq] at he
+      exact ⟨he.1.symm, he.2.symm⟩
+    have hdt' : dtypeOfProp p = a'.dtype := by unfold dtypeOfProp; rw [ha']
+    have hra := hr.2
+    rw [hval] at hra
+    simp only at hra
+    obtain ⟨hhead, hwf⟩ := hra
+    rw [hnv, hvd.1, hvd.2]
+    simp only [Bool.false_eq_true, if_false]
+    unfold denseCells
+    cases hsa : a.shape with
+    | nil => rw [hsa] at hhead; cases hhead
+    | cons n' tail =>
+      rw [hsa] at hhead
+      simp only [List.head?_cons, Option.some.injEq] at hhead
+      rw [hsh', hsa]
+      simp only []
+      rw [if_pos ⟨hhead, by unfold wellShaped; rw [hfl', hsh', hwf]; simp [size, prod], hdt'.symm⟩]
+      unfold propD
+      rw [ha']
+      simp only [hsh', hsa, List.head?_cons, Option.getD_some, List.tail_cons, Option.map_some, hhead, hbo]
+  | obj es =>
+    have hv' : isVarlen p = true := by unfold isVarlen; rw [hval]
+    have hwv := hw.2.2
+    rw [hval] at hwv
+    obtain ⟨hwf, hh, _⟩ := hwv
+    have hup := upcast_obj p es hval
+    have hlen := hr.2
+    rw [hval] at hlen
+    simp only at hlen
+    have hvd : v = (Geff.Vlen.encode es).valuesArr ∧ d = some (Geff.Vlen.encode es).dataArr := by
+      unfold encodeProp at he; rw [hup, hval] at he
+      have henc : vlenCodec.encode es = .ok ((Geff.Vlen.encode es).valuesArr, (Geff.Vlen.encode es).dataArr) := by
+        show ofVlen (Geff.Vlen.serializeVlen es) = _
+        rw [Geff.Vlen.serializeVlen_eq es hh]; rfl
+      simp only [henc, bind, Except.bind, pure, Except.pure, Except.ok.injEq, Prod.mk.injEq] at he
+      exact ⟨he.1.symm, he.2.symm⟩
+    have hdt' : dtypeOfProp p = Geff.Vlen.dataDtype es := by unfold dtypeOfProp; rw [hup, hval]
+    rw [hv', hvd.1, hvd.2, hdt']
+    simp only [if_true]
+    rw [← hlen, vlenCells_encode es hwf hh]
+    unfold propD
+    rw [hup, hval]
+    rw [hup, ← hlen] at hbo
+    simp only [Option.map_some, hbo]
+
+theorem mapM_some_map {α β} (f : α → Option β) (g : α → β) : ∀ (l : List α), (∀ x ∈ l, f x = some (g x)) →
+    l.mapM f = some (l.map g) := by
+  intro l
+  induction l with
+  | nil => intro _; rfl
+  | cons a t ih =>
+    intro h
+    simp only [List.mapM_cons, h a (List.mem_cons_self ..), ih (fun x hx => h x (List.mem_cons_of_mem _ hx)), bind,
+      Option.bind_some, pure, List.map_cons]
+
+/-- one of the groups of a written store is laid out as specified and denotes the written properties -/
+theorem denoteProps_written (s : St) (grp : String) (n : Nat) (ps : Props) (ex : List (String × PropMeta))
+    (hpg : get s [grp, "props"] = some (.group []))
+    (hnames : ∀ k, (get s [grp, "props", k]).isSome ↔ k ∈ ps.map (·.1))
+    (hat : ∀ kp ∈ ps, PropAt vlenCodec s [grp, "props", kp.1] (upcast kp.2))
+    (hnd : (ps.map (·.1)).Nodup) (hw : ∀ kp ∈ ps, Writable kp.1 kp.2 ∧ RowsOK n kp.2) :
+    ∃ nps, denoteProps s [grp, "props"] n (addOrUpdate ex (ps.map (fun kp => metaOf kp.1 kp.2))) = some nps ∧
+      ∀ k, find k nps = (lookupKey k ps).map (fun p => propD (upcast p)) := by
+  let names := childNames s [grp, "props"]
+  let F : String → PropD := fun k => ((lookupKey k ps).map (fun p => propD (upcast p))).getD default
+  have hmem : ∀ k, k ∈ names ↔ k ∈ ps.map (·.1) := fun k => by
+    show k ∈ childNames s [grp, "props"] ↔ _
+    rw [mem_childNames]; exact hnames k
+  refine ⟨names.map (fun k => (k, F k)), ?_, ?_⟩
+  · unfold denoteProps
+    rw [hpg]
+    simp only []
+    apply mapM_some_map
+    intro k hk
+    have hk' := (hmem k).1 hk
+    have hs := (lookupKey_isSome_iff k ps).2 hk'
+    cases hl : lookupKey k ps with
+    | none => rw [hl] at hs; cases hs
+    | some p =>
+      have hm := lookupKey_mem k ps p hl
+      obtain ⟨pm, hpm, hdt, hvl⟩ := stored_meta ex ps hnd (k, p) hm
+      have hP := denoteProp_written s [grp, "props", k] k p n pm (hat (k, p) hm) (hw (k, p) hm).1 (hw (k, p) hm).2 hdt hvl
+      unfold denotePropNamed
+      rw [find_eq_lookupKey, hpm]
+      simp only []
+      have : [grp, "props"] ++ [k] = [grp, "props", k] := rfl
+      rw [this, hP]
+      show some (k, propD (upcast p)) = some (k, ((lookupKey k ps).map (fun p => propD (upcast p))).getD default)
+      rw [hl]; rfl
+  · intro k
+    rw [find_eq_lookupKey, lookupKey_map_self]
+    by_cases hk : k ∈ names
+    · rw [if_pos hk]
+      have hs := (lookupKey_isSome_iff k ps).2 ((hmem k).1 hk)
+      cases hl : lookupKey k ps with
+      | none => rw [hl] at hs; cases hs
+      | some p => show some (((lookupKey k ps).map (fun p => propD (upcast p))).getD default) = _; rw [hl]; rfl
+    · rw [if_neg hk]
+      have : ¬ (lookupKey k ps).isSome := fun h => hk ((hmem k).2 ((lookupKey_isSome_iff k ps).1 h))
+      cases hl : lookupKey k ps with
+      | none => rfl
+      | some p => rw [hl] at this; exact absurd rfl this
+
+/-- **first direction, core**: the store `writeCore` leaves for a well-formed graph is laid out as the
+specification says (it denotes *some* graph; which one follows with `readCore_of_denote` and C01) -/
+theorem denote_of_written (s0 s' : St) (nid eid : NdArr) (n e : Nat) (W eps : Props) (md : CallerMeta)
+    (hW : Written vlenCodec s0 s' nid eid W eps (attrOf md W eps))
+    (hns : nid.shape = [n]) (hes : eid.shape = [e, 2]) (hint : nid.dtype.isInteger = true) (hsame : eid.dtype = nid.dtype)
+    (hnwf : nid.WF) (hewf : eid.WF)
+    (hndW : (W.map (·.1)).Nodup) (hwW : ∀ kp ∈ W, Writable kp.1 kp.2 ∧ RowsOK n kp.2)
+    (hndE : (eps.map (·.1)).Nodup) (hwE : ∀ kp ∈ eps, Writable kp.1 kp.2 ∧ RowsOK e kp.2) :
+    ∃ G, denote s' = some G ∧ G.directed = md.directed ∧ G.idDtype = nid.dtype ∧ G.nodes = nid.flat ∧
+      G.edges = pairs eid.flat ∧
+      (∀ k, find k G.nodeProps = (lookupKey k W).map (fun p => propD (upcast p))) ∧
+      (∀ k, find k G.edgeProps = (lookupKey k eps).map (fun p => propD (upcast p))) := by
+  obtain ⟨a, hroot, hgeff⟩ := hW.root
+  have hN : Gen.Paths.NODES = "nodes" := rfl
+  have hE : Gen.Paths.EDGES = "edges" := rfl
+  have hI : Gen.Paths.IDS = "ids" := rfl
+  have hP : Gen.Paths.PROPS = "props" := rfl
+  have h1 : geffMeta s' = some (attrOf md W eps) := by
+    unfold geffMeta; rw [hroot]; simp only [find_eq_lookupKey, hgeff]
+  have h2 : groupAt s' ["nodes"] = true := by unfold groupAt; rw [← hN, hW.nodesGrp]
+  have h3 : groupAt s' ["edges"] = true := by unfold groupAt; rw [← hE, hW.edgesGrp]
+  have h4 : arrayAt s' ["nodes", "ids"] = some nid := by unfold arrayAt; rw [← hN, ← hI, hW.nodeIds]
+  have h5 : arrayAt s' ["edges", "ids"] = some eid := by unfold arrayAt; rw [← hE, ← hI, hW.edgeIds]
+  obtain ⟨np, hnp, hnpf⟩ := denoteProps_written s' "nodes" n W md.nodeProps (by rw [← hN, ← hP]; exact hW.nodePropsGrp)
+    (by intro k; rw [← hN, ← hP]; exact hW.nodeNames k) (by intro kp hm; rw [← hN, ← hP]; exact hW.nodeProps kp hm) hndW hwW
+  obtain ⟨ep, hep, hepf⟩ := denoteProps_written s' "edges" e eps md.edgeProps (by rw [← hE, ← hP]; exact hW.edgePropsGrp)
+    (by intro k; rw [← hE, ← hP]; exact hW.edgeNames k) (by intro kp hm; rw [← hE, ← hP]; exact hW.edgeProps kp hm) hndE hwE
+  refine ⟨⟨md.directed, nid.dtype, nid.flat, pairs eid.flat, np, ep⟩, ?_, rfl, rfl, rfl, rfl, hnpf, hepf⟩
+  unfold denote
+  rw [h1, h2, h3, h4, h5]
+  simp only [hns, hes, List.head?_cons, Option.getD_some]
+  have hok : idsOK nid eid n e = true := by
+    unfold idsOK wellShaped
+    rw [hns, hes, hint, hsame, hnwf, hewf, hns, hes]
+    simp [size, prod]
+  rw [if_pos hok]
+  have hn' : (attrOf md W eps).nodeProps = addOrUpdate md.nodeProps (W.map (fun kp => metaOf kp.1 kp.2)) := rfl
+  have he' : (attrOf md W eps).edgeProps = addOrUpdate md.edgeProps (eps.map (fun kp => metaOf kp.1 kp.2)) := rfl
+  rw [hn', he', hnp, hep]
+  rfl
 
 end Geff.Spec
